@@ -44,8 +44,12 @@ def compute_step(rhs: typing.Callable, initial_time, initial_state, timestep, in
     for stage in range(intermediate_stages_in.shape[-1]):
         stage_coeffs = rk_tableau[stage, 1:]
         nonzero_coeffs_mask = stage_coeffs != 0.0
-        nonzero_coeffs_mask = D.ar_numpy.where(~D.ar_numpy.any(nonzero_coeffs_mask), D.ar_numpy.ones_like(nonzero_coeffs_mask), nonzero_coeffs_mask)
-        intermediate_dstate = timestep * D.ar_numpy.sum(intermediate_stages_in[...,nonzero_coeffs_mask] * stage_coeffs[nonzero_coeffs_mask], axis=-1)
+        if D.ar_numpy.any(nonzero_coeffs_mask):
+            intermediate_dstate = timestep * D.ar_numpy.sum(intermediate_stages_in[...,nonzero_coeffs_mask] * stage_coeffs[nonzero_coeffs_mask], axis=-1)
+        else:
+            # a stage without coefficients starts from the initial state itself: the stage storage, which may still
+            # hold the nan/inf of an earlier failed attempt, is not touched (0 * nan is nan)
+            intermediate_dstate = D.ar_numpy.zeros_like(initial_state)
         intermediate_rhs = rhs(
             initial_time + timestep * rk_tableau[stage, 0], 
             initial_state + intermediate_dstate,
